@@ -27,3 +27,46 @@ package utils
 //@ func PkScript.SecondEncodeAddress
 //@   pure
 //@   ensures result == ghosts("psSecondEnc", recv)
+
+// ---- C16 X1: the wallet's reading of an output script against the consensus library's template matching ----
+// (scriptClass / frozenPeriod / scriptHash32 / bindingTarget are the library's observers of the script bytes,
+// see /verif/contracts/ext/txscript.spec; addrKind / addrScript are the observers of library address objects)
+//@ define PS(r) = r.(*pkScriptInfo)
+//@ define clsOf(b) = ghost("scriptClass", strOf(b))
+//@ define validTarget22(t) = (sbyteAt(t, 20) <= 1 && sbyteAt(t, 21) >= 20 && sbyteAt(t, 21) <= 200)
+
+//@ func ParsePkScript
+//@   props C16 C19
+//@   requires chainParams != nil
+//@   dead return#2
+//@   dead return#3
+//@   dead return#4
+//@   dead return#6
+//@   ensures err != nil ==> result == nil
+//@   ensures err == nil ==> result != nil && fresh(PS(result)) && PS(result).stdAddress != nil
+//@   ensures[C16] clsOf(pkScript) != mathint(txscript.WitnessV0ScriptHashTy) && clsOf(pkScript) != mathint(txscript.StakingScriptHashTy) && clsOf(pkScript) != mathint(txscript.BindingScriptHashTy) ==> err != nil
+//@   ensures[C16] err == nil ==> mathint(PS(result).scriptClass) == clsOf(pkScript) && addrKind(PS(result).stdAddress) == 1 && addrScript(PS(result).stdAddress) == ghosts("scriptHash32", strOf(pkScript))
+//@   ensures[C16] clsOf(pkScript) == mathint(txscript.WitnessV0ScriptHashTy) ==> err == nil && PS(result).maturity == 0 && PS(result).addressClass == massutil.AddressClassWitnessV0 && PS(result).secondAddress == nil
+//@   ensures[C16] clsOf(pkScript) == mathint(txscript.StakingScriptHashTy) ==> err == nil && PS(result).addressClass == massutil.AddressClassWitnessStaking && PS(result).secondAddress != nil && addrKind(PS(result).secondAddress) == 2 && addrScript(PS(result).secondAddress) == ghosts("scriptHash32", strOf(pkScript))
+//@   ensures[C16] clsOf(pkScript) == mathint(txscript.StakingScriptHashTy) ==> err == nil && mathint(PS(result).maturity) == mathint(ghostu64("frozenPeriod", strOf(pkScript))) + 1
+//@   ensures[C16] clsOf(pkScript) == mathint(txscript.BindingScriptHashTy) && len(ghosts("bindingTarget", strOf(pkScript))) == 20 ==> err == nil && PS(result).maturity == 0 && addrKind(PS(result).secondAddress) == 3
+//@   ensures[C16] clsOf(pkScript) == mathint(txscript.BindingScriptHashTy) && len(ghosts("bindingTarget", strOf(pkScript))) == 22 ==> (err == nil) == validTarget22(ghosts("bindingTarget", strOf(pkScript)))
+//@   ensures[C16] clsOf(pkScript) == mathint(txscript.BindingScriptHashTy) && len(ghosts("bindingTarget", strOf(pkScript))) == 22 && err == nil ==> PS(result).maturity == consensus.MASSIP0002BindingLockedPeriod && addrKind(PS(result).secondAddress) == 4
+//@   ensures[C16] clsOf(pkScript) == mathint(txscript.BindingScriptHashTy) && err == nil ==> PS(result).addressClass == massutil.AddressClassWitnessV0 && PS(result).secondAddress != nil && addrScript(PS(result).secondAddress) == ghosts("bindingTarget", strOf(pkScript))
+
+// the observers of the parsed script are the stored fields
+//@ func (*pkScriptInfo).Maturity
+//@   props C16
+//@   ensures result == s.maturity
+//@ func (*pkScriptInfo).AddressClass
+//@   props C16
+//@   ensures result == s.addressClass
+//@ func (*pkScriptInfo).IsStaking
+//@   props C16
+//@   ensures result == (s.scriptClass == txscript.StakingScriptHashTy)
+//@ func (*pkScriptInfo).IsBinding
+//@   props C16
+//@   ensures result == (s.scriptClass == txscript.BindingScriptHashTy)
+//@ func (*pkScriptInfo).ScriptClass
+//@   props C16
+//@   ensures result == s.scriptClass
